@@ -699,9 +699,10 @@ def shared_any_case(ctx, rng):
     """ONE 'any token except the brackets' object (a module-level constant of the caller) serves two parsers whose
     tokenizers know different tokens: each sequence collects the tokens of its own tokenizer"""
     helper = AnyTokenExcept('[', ']')
+    # (the second tokenizer reports its punctuation under the characters themselves: '=', ';', '$', '$$')
     toks = [r"(?P<SPACE>\s+)|(?P<BO>\[)|(?P<BC>\])|(?P<WORD>[a-z]+)|(?P<NUMBER>[0-9]+)",
-            r"(?P<SPACE>\s+)|(?P<BO>\[)|(?P<BC>\])|(?P<WORD>[a-z]+)|(?P<EQ>=)|(?P<SC>;)"]
-    pools = [["a", "bc", "7", "42"], ["a", "bc", "=", ";"]]
+            r"(?P<SPACE>\s+)|(?P<BO>\[)|(?P<BC>\])|(?P<WORD>[a-z]+)|(?P<EQ>=)|(?P<SC>;)|(?P<DD>\$\$)|(?P<DOLLAR>\$)"]
+    pools = [["a", "bc", "7", "42"], ["a", "bc", "=", ";", "$", "$$"]]
     if rng.random() < 0.5:
         toks.reverse()
         pools.reverse()
@@ -710,7 +711,8 @@ def shared_any_case(ctx, rng):
     parsers = []
     try:
         for tok in toks:
-            parsers.append(llparser.LLParser(tok, synonyms={'BO': '[', 'BC': ']'},
+            parsers.append(llparser.LLParser(tok, synonyms={'BO': '[', 'BC': ']', 'EQ': '=', 'SC': ';', 'DOLLAR': '$',
+                                                            'DD': '$$'},
                                              productions={'E': [('[', 'SEQ', ']')], 'SEQ': ProdSequence(helper)}))
     except Exception as err:
         ctx.violation("constructor-raises", {"type": type(err).__name__, "msg": str(err)[-200:]}, case)
@@ -890,7 +892,9 @@ def twice_case(ctx, rng):
     smart = rng.random() < 0.7
     key = (kind, smart)
     if key not in _TWICE_PARSER:
-        tok = r"(?P<SPACE>\s+)|(?P<COMMENT>\#.*)|(?P<WORD>[a-z0-9_]+)|(?P<ARROW>->)|(?P<BO>\[)|(?P<BC>\])|(?P<COMMA>,)|(?P<SEMI>;)"
+        # (blanks and tabs are what this tokenizer skips: the text is given as one str, its lines are cut at the line
+        # breaks and stripped on the right before the tokenizer sees them)
+        tok = r"(?P<SPACE>[ \t]+)|(?P<COMMENT>\#.*)|(?P<WORD>[a-z0-9_]+)|(?P<ARROW>->)|(?P<BO>\[)|(?P<BC>\])|(?P<COMMA>,)|(?P<SEMI>;)"
         syn = {'ARROW': '->', 'BO': '[', 'BC': ']', 'COMMA': ',', 'SEMI': ';'}
         if kind == "rule":
             prods = {'E': [('RULE',)], 'RULE': [('WORD', 'ARGS', '->', 'WORD', 'ARGS', ';')],
@@ -922,6 +926,10 @@ def twice_case(ctx, rng):
     else:
         text = "m" + sep(rng) + text_of(first) + ws(rng) + text_of(second) + ws(rng) + ";"
         want = ['m', first, second, ';']
+    if rng.random() < 0.4:
+        # the file came from a machine whose line ends are CR LF (also behind a blank or a comment)
+        text = text.replace("\n", rng.choice(["\r\n", " \r\n", "\t\r\n"]))
+        ctx.count("texts_with_cr_lf_line_ends_for_a_tokenizer_that_skips_blanks_and_tabs_only")
     case = {"options": {"twice": kind, "smart": smart}, "text": text}
 
     def plain(x):
